@@ -766,9 +766,12 @@ fn chain_case(idx: u64, radices: &[u64]) -> ChainCase {
     if let Some(p) = leaf_func {
         symbols += &format!("FUNC 3000 100 {p:x} leaf\n");
     }
+    // f's record is split: its first 4 bytes (the entry, where no frame of these chains ever is) carry a record
+    // of the same kind with OTHER sizes; the record in effect for a frame is the one covering its instruction
+    let entry_sz = Sizes { params: f_sz.params ^ 4, saved: f_sz.saved ^ 8, locals: 0x30 };
     symbols += &match &f_kind {
-        WinKind::Fpo(alloc) => win_line('0', 0x1000, 0x100, f_sz, 0, if *alloc { "1" } else { "0" }),
-        WinKind::FrameData(p) => win_line('4', 0x1000, 0x100, f_sz, 1, p),
+        WinKind::Fpo(alloc) => win_line('0', 0x1000, 4, entry_sz, 0, if *alloc { "1" } else { "0" }) + &win_line('0', 0x1004, 0xfc, f_sz, 0, if *alloc { "1" } else { "0" }),
+        WinKind::FrameData(p) => win_line('4', 0x1000, 4, entry_sz, 1, p) + &win_line('4', 0x1004, 0xfc, f_sz, 1, p),
     };
     symbols += &win_line('4', 0x2000, 0x100, C_SZ_MAIN, 1, C_PROG);
     // stack image: every word is recognisable; the return addresses of the intended chain
